@@ -43,9 +43,9 @@ var timeSpecials = func() []int64 {
 		1582977600e9,               // 2020-02-29T12:00:00Z
 		1577836799999999999,        // 2019-12-31T23:59:59.999999999Z
 		2147483647e9, 2147483648e9, // 2038
-		-2208988800e9,              // 1900-01-01
-		-869443200e9 + 250,         // 1942-06-15 (Kolkata war time)
-		-5364662400e9 + 999999999,  // 1800-01-01 (local mean time everywhere)
+		-2208988800e9,                  // 1900-01-01
+		-869443200e9 + 250,             // 1942-06-15 (Kolkata war time)
+		-5364662400e9 + 999999999,      // 1800-01-01 (local mean time everywhere)
 		-764145000e9, -764145000e9 - 1, // 1945-10-14T17:30Z Kolkata +6:30 -> +5:30
 	}
 	// America/New_York: 2021-03-14T07:00Z spring forward, 2021-11-07T06:00Z fall back,
